@@ -27,7 +27,7 @@ LEVEL_NOTE = "Trusted: sanitizers as observers; Eigen/Boost/libstdc++ internals 
 TECHNIQUE = "Lean 4 proof for the modelled index-chasing/storage accesses + sanitizer-instrumented execution of all workflows"
 DESIGN_REF = "DESIGN.md section 6, C17"
 
-SWEEP = ["C01", "C02", "C04", "C05", "C07", "C12", "C13", "C14", "C15", "C16", "C18", "C19", "C20"]
+SWEEP = ["C01", "C02", "C04", "C05", "C06", "C07", "C09", "C12", "C13", "C14", "C15", "C16", "C18", "C19", "C20"]
 
 
 class Sub:
